@@ -54,6 +54,8 @@ package decorator
 //@ func (r *FileRestorer) addCommentField
 //@ modifies r.comments, elems(*ast.CommentGroup), elems(*ast.Comment), heap(ast.Field.Comment), heap(ast.ImportSpec.Comment), heap(ast.ValueSpec.Comment), heap(ast.TypeSpec.Comment), heap(ast.CommentGroup.List), heap(ast.Comment.Slash), heap(ast.Comment.Text)
 //@ ensures comments_prefix: len(r.comments) >= old(len(r.comments)) && (forall j int :: 0 <= j && j < old(len(r.comments)) ==> r.comments[j] == old(r.comments[j]))
+//@ requires at_cursor: slash == r.cursor
+//@ ensures registered_at_slash: len(r.comments) == old(len(r.comments)) || (len(r.comments) == old(len(r.comments)) + 1 && !wasAllocated(r.comments[len(r.comments)-1]) && len(r.comments[len(r.comments)-1].List) == 1 && r.comments[len(r.comments)-1].List[0].Slash == slash)
 
 //@ func (r *FileRestorer) applyDecorations
 //@ requires inv: r.inv()
